@@ -75,7 +75,7 @@ def report_stage(ctx, q):
     """RPC layer: requests (also ones that mix valid and out-of-range pairs) through the real SourceControl methods on a
     running source; the latest GROUPTRIGGER update sent to clients vs the set in use (GroupReportTrace.tla)."""
     tp = ctx.path("groupreport.ndjson")
-    rc, out = vlib.go_test(ctx, "", GR, "TestVerifGroupReport$", env={"VERIF_OUT": tp, "VERIF_NRANDOM": 25 if q else 300}, timeout=1800)
+    rc, out = vlib.go_test(ctx, "", GR, "TestVerifGroupReport$", env={"VERIF_OUT": tp, "VERIF_NRANDOM": 25 if q else 1000}, timeout=1800)
     if rc != 0:
         raise vlib.MachineryError("group report driver failed:\n" + out[-3000:])
     viols, done = vlib.validate_trace(ctx, "GroupReportTrace", "GroupReportTrace.cfg", tp, timeout=900)
@@ -104,9 +104,9 @@ def run(ctx):
         edits = [{"k": "conn", "op": a["a"], "s": a.get("s", 0), "r": a.get("r", 0)} for a in acts]
         scens.append(conn_scenario(rng, "model-counterexample", edits))
         ctx.notes["as_code_counterexample"] = acts
-    n = 200 if q else 3000
+    n = 200 if q else 12000
     scens += [conn_scenario(rng) for _ in range(n)]
-    nm = 40 if q else 600
+    nm = 40 if q else 2500
     scens += [multi_rx_scenario(rng) for _ in range(nm)]
     ctx.notes["scenarios_multi_receiver"] = nm
     ctx.notes["scenarios_random"] = n
